@@ -45,7 +45,10 @@ def convert(F, route, src, fd, md):
         y = src.deepcopy()
         y.config.rounding, y.config.overflow = md
         y.reset()
-        y.resize(s, w, f)
+        if (w + f) % 2 == 0 and w - f - int(s) >= 0:
+            y.resize(s, n_int=w - f - int(s), n_frac=f)       # the same format given by its integer and fraction lengths
+        else:
+            y.resize(s, w, f)
         return y
     if route == 'resize_dtype':
         y = src.deepcopy()
